@@ -1,7 +1,7 @@
 (* Props/C01.v — property theorems only. *)
 From Coq Require Import List NArith ZArith.
 From N0 Require Import Base.PyStr Base.PyVal Xpath.Dec Xpath.DecProofs Xpath.Token Xpath.TokenProofs
-  Xpath.Find Xpath.FindProofs Xpath.Write Xpath.SpecProofs Xpath.WalkProofs Xpath.EnumProofs.
+  Xpath.Find Xpath.FindProofs Xpath.Write Xpath.SpecProofs Xpath.WalkProofs Xpath.TokenizeProofs Xpath.EnumProofs.
 Import ListNotations.
 
 (* Every spelling of a node path (one token per step or name[index] tokens; every
@@ -55,6 +55,35 @@ Print Assumptions C01_enum_leaves.
 Theorem C01_leaves_resolve : forall t, wf t -> forall p s, In (p, s) (leaves t) -> resolve t p = Some (Leaf s).
 Proof. exact leaves_resolve. Qed.
 Print Assumptions C01_leaves_resolve.
+
+(* The string-level statement of the property for dict-rooted trees: every (xpath, value)
+   pair listed by the enumeration resolves, through item access, get and first, to that
+   very leaf, and the tree comes back unchanged.  Hypotheses: keys unique per dict (wf, which
+   Python dicts guarantee) and "good": non-empty, free of '/', '[', ']', no white space at
+   either end, not '..' or '*'.  Proof: tokenize = single-pass splitter (for every string),
+   rendered positions tokenise to their step tokens, decimal round trip, find_walk. *)
+Theorem C01_enumerated_xpaths_resolve : forall c kvs,
+  let t := Dict c kvs in
+  wf t -> keys_good t ->
+  forall xp s, In (xp, s) (xpath_enum t) ->
+    dict_getitem (fuel_for t xp) t xp = Ok (t, LVal (Leaf s)) /\
+    dict_get_pub (fuel_for t xp) t xp = Ok (t, LVal (Leaf s)) /\
+    dict_first (fuel_for t xp) t xp = Ok (t, LVal (Leaf s)).
+Proof. exact enumerated_xpaths_resolve. Qed.
+Print Assumptions C01_enumerated_xpaths_resolve.
+
+(* ... its hypotheses are met by a concrete tree with a non-empty enumeration *)
+Theorem C01_enumerated_nonvacuous :
+  wf ex_root /\ keys_good ex_root /\ xpath_enum ex_root <> [] /\
+  forall xp s, In (xp, s) (xpath_enum ex_root) ->
+    dict_getitem (fuel_for ex_root xp) ex_root xp = Ok (ex_root, LVal (Leaf s)).
+Proof. exact enum_example. Qed.
+Print Assumptions C01_enumerated_nonvacuous.
+
+(* tokenize is a single-pass splitter, for every string (well- or ill-formed) *)
+Theorem C01_tokenize_single_pass : forall x, tokenize x = map strip (filter nonempty (split2 x [] false)).
+Proof. exact tokenize_split2. Qed.
+Print Assumptions C01_tokenize_single_pass.
 
 (* Non-vacuity: a concrete nested tree, a path through a list of lists written with
    name[index] and a negative index, satisfies every hypothesis above. *)
